@@ -46,8 +46,9 @@ class ImplCheck:
             ctx.prove_with_deps(self.PROOF_FILES[-1])
         ctx.trusted.append(self.model_note)
         ctx.assumptions.append(
-            'liveness of infinite closed-loop behaviours is not mechanised; it is '
-            'only exercised by the explicit fair-cycle search (not a proof)')
+            'the liveness theorem (' + self.ID + '_liveness) depends on the '
+            'standard-library axiom Classical_Prop.classic; the other theorems '
+            'are closed')
 
 
     def build(self, g, moore, plus_one, q):
